@@ -74,6 +74,10 @@ mod tidy_tests;
 pub(crate) mod timing;
 pub(crate) mod validation;
 pub(crate) mod value_flags;
+#[cfg(wild_verif)]
+pub(crate) mod verif;
+#[cfg(wild_verif)]
+pub mod verif_api;
 pub(crate) mod verification;
 pub(crate) mod version_script;
 
